@@ -208,7 +208,7 @@ func twvCheck(in string, want map[string]bool) (clause string, detail string) {
 }
 
 func twvClauses(ob string) map[string]bool {
-	all := map[string]bool{"inv": true, "span": true, "ordered": true, "text": true, "gap": true, "textmode": true, "nopanic": true, "terminates": true, "passthrough": true}
+	all := map[string]bool{"inv": true, "span": true, "ordered": true, "text": true, "gap": true, "textmode": true, "nopanic": true, "terminates": true, "passthrough": true, "eof-at-end": true}
 	pick := func(ks ...string) map[string]bool {
 		m := map[string]bool{}
 		for _, k := range ks {
